@@ -44,7 +44,7 @@ def concretize(hist):
         elif h["op"] == "close":
             steps.append({"close": h["c"], "op": {"op": "close"}})
         elif h["op"] == "resolve_nth":
-            steps.append({"c": h["c"], "resolve_nth": h["nth"], "value": "r%d" % n})
+            steps.append({"c": h["c"], "resolve_nth": h["nth"], "value": "r%d" % n, "keep": bool(h.get("keep"))})
     return steps
 
 
@@ -113,7 +113,7 @@ def run(tier, seed):
                     h.append({"c": "arb%d" % gen_n, "op": "arbiter"})
                     on = True
             elif on:
-                h.append({"c": "arb%d" % gen_n, "op": "resolve_nth", "nth": rnd.randint(0, 2)})
+                h.append({"c": "arb%d" % gen_n, "op": "resolve_nth", "nth": rnd.randint(0, 2), "keep": rnd.random() < 0.3})
         cases.append({"id": "r%d" % i, "steps": concretize(h)})
     raws = common.run_cases_parallel("seq", cases, wd)
     norm_path = os.path.join(wd, "norm.ndjson")
@@ -128,7 +128,8 @@ def run(tier, seed):
         "exhaustive": True,
         "rule": "MC_Arbiter: every (arbiter never / connected / disconnected, queue length per key, notices held) "
                 "x {plain write, stale versioned write on each of two keys of which one name extends the other, "
-                "register, disconnect, resolve the i-th outstanding notice (echoing its op id and version), "
+                "register, disconnect, resolve the i-th outstanding notice (echoing its op id and version) with a value of "
+                "the arbiter's own or with the value the key holds, "
                 "read}; seeded longer histories; executed on the real node; Trace_Arbiter judges every step",
     })
     res.assumptions = ["single node (the cluster part of C13 is limited by the recorded resolve ping-pong, see C14)",
